@@ -59,4 +59,4 @@ class RemoveDebug(SuiteTransformer):
             else:
                 return [self.add_child(ast.Expr(value=ast.Num(0)), parent=parent)]
 
-        return without_debug
+        return self.without_new_docstring(node_list, without_debug, parent)
